@@ -60,7 +60,7 @@ def sig_oracle(modn=(), int_msg=False, blocks=False, ok_malleations=(), extra=No
         if 'statements-swapped' in s.notes:
             ch.append('stmt')
         for nt in s.notes:
-            if nt.startswith('coordinated-'):
+            if nt.startswith('coordinated-') or nt == 'forged-extension':
                 ch.append(nt)
         nkey = sum(1 for f in ch if f in KEYFIELDS)
         if ((nkey and any(f not in KEYFIELDS for f in ch)) or nkey >= 2) and s.scheme not in ('pokor', 'sokor'):
@@ -422,7 +422,8 @@ def o_match(s, ctx, v, out):
 
 SCHEMES.update({
     'etrs': Spec('C05', 5, dict(pp='ec', td3='bn', y3='bn', ry0='bn', h0='ec', pk0='ec', c00='bn', c01='bn', r00='bn', r01='bn', msg='bytes'),
-                 sig_oracle(extra=etrs_extra), opts=lambda rng: dict(k=rng.below(3), n=7 if rng.chance(0.04) else 3)),
+                 sig_oracle(extra=etrs_extra), opts=lambda rng: dict(k=rng.below(3), n=7 if rng.chance(0.04) else 3),
+                 extra_faults=[('forge', 'v_forgeext')]),
     'smlers': Spec('C05', 5, dict(pp='ec', td='bn', h0='ec', pk0='ec', sc00='bn', sc01='bn', sr00='bn', sr01='bn', tau0='ec', c00='bn',
                                   c01='bn', r00='bn', r01='bn', tau1='ec', c10='bn', msg='bytes'),
                    sig_oracle(), opts=lambda rng: dict(k=rng.below(3))),
